@@ -443,7 +443,8 @@ type Engine struct {
 	txTime     *T // timestamp seen by the running invocation
 	sigWho     map[int]*T
 	sigMembers []string
-	irKeys     []string // tags of the designated Inner Ring keys
+	irKeys     []string // tags of the designated Inner Ring keys (the latest designation)
+	irHistory  []irDesignation
 	ufs        map[string][]ufEntry
 	linked   map[string]*ssa.Package // contract name -> package
 	names    []string                // contract index -> name
@@ -1507,6 +1508,12 @@ func (e *Engine) wrapNative(t types.Type, op token.Token, v Value) Value {
 }
 
 type vmFault struct{ msg string }
+
+// irDesignation: one designateAsRole(NeoFSAlphabet, keys), in force from block act on.
+type irDesignation struct {
+	act  *T
+	pubs [][]byte
+}
 
 func catchFault(f func()) (msg string) {
 	defer func() {
